@@ -122,6 +122,11 @@ def rule_b(ctx, E):
                 for t in (st.targets if isinstance(st, ast.Assign) else [st.target]):
                     if isinstance(t, ast.Subscript) and isinstance(t.value, ast.Attribute) and t.value.attr in attrs:
                         tgt, what = t.value, norm(st)[:80]
+                    # `x.date += [...]` extends the list object x.date refers to (list.__iadd__), it does not build a new one
+                    if isinstance(st, ast.AugAssign) and isinstance(t, ast.Attribute) and t.attr in attrs and \
+                            (t.attr in ("date", "dimensions", "origin") or isinstance(st.value, (ast.List, ast.ListComp)) or
+                             (isinstance(st.value, ast.IfExp) and any(isinstance(b, (ast.List, ast.ListComp)) for b in (st.value.body, st.value.orelse)))):
+                        tgt, what = t, norm(st)[:80]
             elif isinstance(st, ast.Call) and isinstance(st.func, ast.Attribute) and st.func.attr in ("append", "extend", "insert", "pop", "remove", "sort", "reverse", "clear") \
                     and isinstance(st.func.value, ast.Attribute) and st.func.value.attr in attrs:
                 tgt, what = st.func.value, norm(st)[:80]
